@@ -370,11 +370,33 @@ fn gen_bomb(g: &mut Gen, ctx: &mut Ctx) -> Vec<u8> {
         }
         _ => {
             // recipients nested through plain arrays
-            let d = (1usize << g.below(10)).min(600);
+            let d = if g.bool() { (1usize << g.below(10)).min(600) } else { *g.pick(&[7usize, 8, 9, 10, 11, 12, 16, 40, 100, 120]) };
             ctx.class("bomb:recipient-nesting");
-            let mut r = vec![0x83, 0x40, 0xa0, 0xf6];
-            for _ in 0..d {
-                r = [&[0x84u8, 0x40, 0xa0, 0xf6, 0x81][..], &r].concat();
+            // some of the nested recipients (the innermost, every third, or all) carry a counter-signature in
+            // the unprotected or the protected header: two kinds of nesting in one message
+            let cs_mode = g.below(4);
+            let cs_prot = g.bool();
+            let with_cs = |level: usize| -> Vec<u8> {
+                let wants = match cs_mode {
+                    0 => false,
+                    1 => level == 0,
+                    2 => level % 3 == 0,
+                    _ => true,
+                };
+                if !wants {
+                    vec![0x40, 0xa0]
+                } else if cs_prot {
+                    [&bstr(&[0xa1, 0x07, 0x83, 0x40, 0xa0, 0x40])[..], &[0xa0]].concat()
+                } else {
+                    vec![0x40, 0xa1, 0x07, 0x83, 0x40, 0xa0, 0x40]
+                }
+            };
+            if cs_mode != 0 {
+                ctx.class("bomb:recipient-nesting:with-counter-signatures");
+            }
+            let mut r = [&[0x83u8][..], &with_cs(0), &[0xf6]].concat();
+            for level in 1..=d {
+                r = [&[0x84u8][..], &with_cs(level), &[0xf6, 0x81], &r].concat();
             }
             r
         }
